@@ -1,4 +1,5 @@
 import PsycheModel.Disambig
+import PsycheModel.Lemmas.Catalog
 /-!
 # C09 — Syntactic ambiguities are resolved and never left silently
 
@@ -119,3 +120,34 @@ example :
   decide
 
 end PsycheModel.Tree
+
+/-! ## The decision: the name catalog against C's scoping -/
+namespace PsycheModel.Catalog
+
+/-- the empty catalog and the file scope -/
+def cat0 : Cat := ⟨fun _ => none, fun _ => none⟩
+def env0 : Env := [fun _ => none]
+
+theorem sim0 : Sim cat0 env0 1 :=
+  ⟨rfl, fun r k e h => by cases r <;> simp [cat0, Cat.get] at h, fun k r h => by simp [env0, lookup] at h,
+   fun k _ r e h => by cases r <;> simp [cat0, Cat.get] at h⟩
+
+/-- **Every ambiguity on a declared name is given the reading C's scoping gives it.**  For every program — any nesting of
+blocks, any number of names, declarations and uses in any order, shadowing in inner blocks in either direction — that is valid
+in the two respects that matter (a declaration does not give a name the other role in a scope where it already has one; a
+declared name is used in its role): at every ambiguity, the decision taken on the copy of the catalog kept for it
+(`disambiguateByDeclarationBefore`) is the role of the innermost declaration of the name in scope at that point — whatever
+the rest of the block, or any sibling or inner block, declares or uses.  (Names that are not declared are left to the
+correlation of uses over the block, which is a heuristic and not part of this statement.) -/
+theorem catalog_decision_is_C (prog : Items) (hv : validItems env0 prog = true) :
+    ∀ p ∈ runItems 1 cat0 env0 prog, ∀ r, p.2 = some r → p.1 = some r :=
+  run_items_correct prog 1 cat0 env0 sim0 hv
+
+/-- non-vacuity and the shape of the defect repaired in the pinned tree: `typedef int T0; void f(void) { (T0) - x; int T0; { (T0) - x; } }`:
+the first ambiguity is a cast (the declaration that follows does not reach back), the second a subtraction -/
+example :
+    let prog : Items := .cons (.decl .ty 0) (.cons (.block (.cons (.amb 0) (.cons (.decl .nonTy 0) (.cons (.block (.cons (.amb 0) .nil)) .nil)))) .nil)
+    validItems env0 prog = true ∧ runItems 1 cat0 env0 prog = [(some .ty, some .ty), (some .nonTy, some .nonTy)] := by
+  decide
+
+end PsycheModel.Catalog
